@@ -318,7 +318,7 @@ func (r *fileRowReader) Close() error {
 }
 
 func (r *fileRowReader) readValues(out []TypedValue) error {
-	var size uint16
+	var size uint32
 	err := binary.Read(r.reader, binary.BigEndian, &size)
 	if err != nil {
 		return err
@@ -326,6 +326,7 @@ func (r *fileRowReader) readValues(out []TypedValue) error {
 
 	r.rowBuf.Reset()
 
+	// the row is kept with its size prefix: the merge step copies it as it is
 	binary.Write(&r.rowBuf, binary.BigEndian, &size)
 
 	_, err = io.CopyN(&r.rowBuf, r.reader, int64(size))
@@ -334,7 +335,7 @@ func (r *fileRowReader) readValues(out []TypedValue) error {
 	}
 
 	data := r.rowBuf.Bytes()
-	return decodeValues(data[2:], r.colTypes, out)
+	return decodeValues(data[4:], r.colTypes, out)
 }
 
 func (r *fileRowReader) Read() (*Row, error) {
@@ -369,7 +370,19 @@ func (r *fileRowReader) getRow() *Row {
 func decodeValues(data []byte, colTypes []SQLValueType, out []TypedValue) error {
 	var voff int
 	for i, col := range colTypes {
-		v, n, err := DecodeNullableValue(data[voff:], col)
+		// a presence byte precedes every value: NULL and the empty string (or blob) are different things
+		if voff >= len(data) {
+			return ErrCorruptedData
+		}
+		present := data[voff] != 0
+		voff++
+
+		if !present {
+			out[i] = &NullValue{t: col}
+			continue
+		}
+
+		v, n, err := DecodeValue(data[voff:], col)
 		if err != nil {
 			return err
 		}
@@ -449,7 +462,7 @@ func (s *fileSorter) tempFileWriter() (*bufio.Writer, error) {
 
 func (s *fileSorter) encodeRow(r *Row) ([]byte, error) {
 	var buf bytes.Buffer
-	buf.Write([]byte{0, 0}) // make room for size field
+	buf.Write([]byte{0, 0, 0, 0}) // make room for size field
 
 	for i, v := range r.ValuesByPosition {
 		// Projection pushdown (rawRowReader.Read) leaves nil slots for table
@@ -459,7 +472,13 @@ func (s *fileSorter) encodeRow(r *Row) ([]byte, error) {
 		if v == nil {
 			v = &NullValue{t: s.colTypes[i]}
 		}
-		rawValue, err := EncodeNullableValue(v, v.Type(), -1)
+		if v.IsNull() {
+			buf.WriteByte(0)
+			continue
+		}
+		buf.WriteByte(1)
+
+		rawValue, err := EncodeValue(v, v.Type(), -1)
 		if err != nil {
 			return nil, err
 		}
@@ -467,8 +486,7 @@ func (s *fileSorter) encodeRow(r *Row) ([]byte, error) {
 	}
 
 	data := buf.Bytes()
-	size := uint16(len(data) - 2)
-	binary.BigEndian.PutUint16(data, size)
+	binary.BigEndian.PutUint32(data, uint32(len(data)-4))
 
 	return data, nil
 }
